@@ -550,6 +550,13 @@ func buildHistory(rt *rapid.T, full bool) (*histBuilder, string) {
 				}
 			}
 		}
+		if i == nBlocks-1 && rapid.Bool().Draw(rt, "manySmallGauges") {
+			// two dozen small files paid once for different spans: as many payment gauges, whose ids (digests) spread over
+			// the whole key space of the gauge store
+			for q := int64(1); q <= 24; q++ {
+				b.postFileFor(b.owners[1], append([]byte{200, byte(q)}, c02Content(q)...), 1, q)
+			}
+		}
 		if i == nBlocks-1 && rapid.Bool().Draw(rt, "fileWithoutMerkleRoot") {
 			// nothing obliges a client to name a merkle root: such a file is stored and paid for like any other (nobody can
 			// prove it, so it lives for one proof window - here it is posted in the last block)
